@@ -227,3 +227,58 @@ Example c12_confirmation_before_reply :
   = [[XSendCmd 1 Unicast 7 1]; []; [XDone 1 ResOk]]
   /\ s_reqs (fst (srun s_init [SSend 1 Unicast 7 0; SConfirm 7 1 true; SReply 1 EnqOk])) = [].
 Proof. exact confirmation_before_reply. Qed.
+
+(* ---- the tie to the source text ------------------------------------------------------------------
+   gen/GenAppFn.v is emitted on every run from the Python AST of ControllerApplication._handle_frame_sent
+   and of the messageSentHandler branch of ezsp_callback_handler (harness/pysrc.py): the two tuple
+   unpackings selected by `self._ezsp.ezsp_version >= 14`, the conversion of the pre-v14 status, the key
+   (destination, message_tag) under which the pending request is looked up, set_result on its future, the
+   handlers of KeyError and asyncio.InvalidStateError.  With self._pending read off the model's state
+   ([pending_of]: the request in progress under that key, and whether its confirmation is already there), a
+   call is the model's [SConfirm destination tag (status is sl_Status.OK)]: it resolves the future of that
+   request and of no other; without a request under the key, or with its future resolved, it completes
+   nothing.  In every version the elements passed as destination, tag and status are the fields so named. *)
+Require Import BV.lib.EzspTypes BV.gen.GenCallbacks BV.model.Status BV.model.Translate BV.gen.GenAppFn BV.proofs.AppSentSrc_proofs.
+
+Theorem c12_source_confirmation : forall st dst tag status,
+  let ok := status =? sl_OK in
+  match py_handle_frame_sent (pending_of st) dst tag status with
+  | PSetResult key s text =>
+      key = (dst, tag) /\ s = status /\
+      text = (if ok then "message send success" else "message send failure")%string /\
+      exists r, rfind_tag dst tag (s_reqs st) = Some r /\ q_confirmed r = None /\
+        sstep st (SConfirm dst tag ok) =
+          match q_stage r with
+          | RConfirm => end_req (set_reqs st (rset (confirmed r ok) (s_reqs st))) (confirmed r ok)
+                                (if ok then ResOk else ResDeliveryError)
+          | _ => (set_reqs st (rset (confirmed r ok) (s_reqs st)), [])
+          end
+  | PUnexpected =>
+      rfind_tag dst tag (s_reqs st) = None /\ sstep st (SConfirm dst tag ok) = (st, [XUnexpected])
+  | PDuplicate =>
+      (exists r b, rfind_tag dst tag (s_reqs st) = Some r /\ q_confirmed r = Some b) /\
+      sstep st (SConfirm dst tag ok) = (st, [XUnexpected])
+  end.
+Proof. exact src_confirmation. Qed.
+
+Theorem c12_source_confirmation_fields : forall v, In v (map fst CB_FIELDS) -> sent_ok v = true.
+Proof. exact sent_positions_ok. Qed.
+
+Theorem c12_source_dispatch : forall v own vs pending, In v (map fst CB_FIELDS) ->
+  exists f, py_ezsp_callback_handler v own "messageSentHandler" vs = PSent f /\
+    f pending =
+      let '(pd, pt, ps) := sent_positions v in
+      match geti pd vs, geti pt vs, geti ps vs with
+      | Some d, Some t, Some s =>
+          Some (py_handle_frame_sent pending (Z.to_N d) (Z.to_N t) (sent_status v (Z.to_N s)))
+      | _, _, _ => None
+      end.
+Proof. exact src_sent_dispatch. Qed.
+
+(* non-vacuity: a v14 confirmation whose 16-bit tag shares only the low byte with the pending request's finds nothing;
+   the request's own confirmation resolves it *)
+Example c12_source_example :
+  let st := fst (srun s_init [SSend 1 Unicast 7 0; SReply 1 EnqOk]) in
+  py_handle_frame_sent (pending_of st) 7 0x0101 0 = PUnexpected /\
+  py_handle_frame_sent (pending_of st) 7 1 0 = PSetResult (7, 1) 0 "message send success".
+Proof. vm_compute. split; reflexivity. Qed.
